@@ -21,11 +21,12 @@ type Fabric struct {
 	listeners map[string]*bufconn.Listener
 	blocked   map[string]chan struct{} // dials to these addresses block until the channel is closed
 	dials     map[string]int
+	conns     map[string][]net.Conn // client ends of the connections dialled to an address
 }
 
 // NewFabric returns an empty network.
 func NewFabric() *Fabric {
-	return &Fabric{listeners: map[string]*bufconn.Listener{}, blocked: map[string]chan struct{}{}, dials: map[string]int{}}
+	return &Fabric{listeners: map[string]*bufconn.Listener{}, blocked: map[string]chan struct{}{}, dials: map[string]int{}, conns: map[string][]net.Conn{}}
 }
 
 // Listen registers a listener under addr.
@@ -116,7 +117,23 @@ func (f *Fabric) Dialer(ctx context.Context, addr string) (net.Conn, error) {
 		}
 		return nil, fmt.Errorf("dial %s: %w", addr, err)
 	}
+	f.mu.Lock()
+	f.conns[addr] = append(f.conns[addr], c)
+	f.mu.Unlock()
 	return c, nil
+}
+
+// Cut closes every connection that was dialled to addr; the listener stays (a connection
+// reset underneath a running server). Returns how many were closed.
+func (f *Fabric) Cut(addr string) int {
+	f.mu.Lock()
+	cs := f.conns[addr]
+	delete(f.conns, addr)
+	f.mu.Unlock()
+	for _, c := range cs {
+		_ = c.Close()
+	}
+	return len(cs)
 }
 
 // Addr returns the fabric address of server i.
